@@ -86,6 +86,89 @@ def run(rep, tier, seed, replay):
                 for t in known:
                     rep.known_hits[t] += 1
 
+    # ---- the same pattern obtained another way (owned, parsed, wrapped in a combinator) and combinators of two
+    # patterns: every program that reports Always is searched in the same way
+    import random as _r
+    rng = _r.Random(seed * 31 + 9)
+    routes = h.ask(["XR " + hexs(exprs[k]) for k in built])
+    jobs = []          # (input description, members, verdict, pattern, route name)
+    for k, line in zip(built, routes):
+        for item in line.split(" "):
+            if "=" not in item:
+                continue
+            name, rest = item.split("=", 1)
+            exh, _root, pat = (rest.split(":") + ["", ""])[:3]
+            rep.stats["route:%s:%s" % (name, exh.split(":")[0])] += 1
+            if exh == "always":
+                jobs.append(({"expr": exprs[k], "route": name}, [exprs[k]], exh, unhex(pat), name))
+    pool = [k for k in built if P.impl[k].get("exh") in ("always", "sometimes") or "**" in exprs[k]]
+    npairs = 1500 if tier == "quick" else 12000
+    pairs = [(rng.choice(pool), rng.choice(built if rng.random() < 0.4 else pool)) for _ in range(npairs)] if pool and replay is None else []
+    pa = h.ask(["A 2 %s %s" % (hexs(exprs[a]), hexs(exprs[b])) for a, b in pairs])
+    for (a, b), line in zip(pairs, pa):
+        d = lib.parse_impl_build(line)
+        if not d["ok"]:
+            rep.stats["pair:not-built"] += 1
+            continue
+        rep.stats["pair:" + d.get("exh", "?").split(":")[0]] += 1
+        if d.get("exh") == "always":
+            jobs.append(({"any": [exprs[a], exprs[b]]}, [exprs[a], exprs[b]], "always", d["pattern"], "any-pair"))
+    rep.evaluations += len(pairs)
+    anyjobs = [j for j in jobs if j[4].startswith("any")]
+    mv = m.ask(["XA %d %s" % (len(j[1]), " ".join(hexs(e) for e in j[1])) for j in anyjobs])
+    mp = m.ask(["A %d %s" % (len(j[1]), " ".join(hexs(e) for e in j[1])) for j in anyjobs])
+    mf = m.ask(["F09A %d %s" % (len(j[1]), " ".join(hexs(e) for e in j[1])) for j in anyjobs])
+    modelled = {}
+    for j, v, pline, f in zip(anyjobs, mv, mp, mf):
+        mpat = unhex(pline.split(" | ")[1]) if pline.startswith("ok ") and " | " in pline else None
+        modelled[id(j)] = (v, mpat, f)
+        rep.traces += 1
+        if v != j[2] or mpat != j[3]:
+            rep.stats["correspondence-broken"] += 1
+            rep.violation("correspondence", "combinator: verdict of the exhaustiveness fold and compiled pattern", j[0],
+                          impl="%s %s" % (j[2], j[3][:200]), model="%s %s" % (v, (mpat or "")[:200]))
+    xs = h.ask(["X %s" % hexs(j[3]) for j in jobs])
+    for j, line in zip(jobs, xs):
+        inp, members, verdict, pat, name = j
+        if line == "closed":
+            rep.stats["%s:always-and-descendant-closed" % ("combinator" if name.startswith("any") else "route")] += 1
+            continue
+        if not line.startswith("open"):
+            rep.stats["dfa-" + line.split()[0]] += 1
+            continue
+        pq = line.split()
+        q = unhex(pq[1])
+        pp = q[:int(pq[2])]
+        ca = h.ask(["RX %s %s" % (hexs(pat), hexs(pp)), "RX %s %s" % (hexs(pat), hexs(q))])
+        if not (ca[0].startswith("match") and ca[1].startswith("nomatch") and canonical(pp) and canonical(q)):
+            rep.stats["witness-not-confirmed"] += 1
+            continue
+        inp = dict(inp, path=pp, descendant=q)
+        if not name.startswith("any"):
+            k = exprs.index(members[0])
+            if P.impl[k].get("exh") == "always" and P.impl[k]["pattern"] == pat:
+                continue                    # the borrowed glob says and runs the same: judged above
+            rep.violation("oracle", "a glob obtained by %s reports Always but its program matches %r and not the descendant %r (the glob built by Glob::new reports %s)"
+                          % (name, pp, q, P.impl[k].get("exh")), inp, impl="always")
+            continue
+        v, mpat, f = modelled[id(j)]
+        f, rootok = (f.split(" ") + ["root-open"])[:2]
+        rep.stats["combinator:always-but-open"] += 1
+        if pp in ("", "/") and not (rootok == "root-ok" and f == "in"):
+            f = "out:K-EXH-EMPTY"
+        if f == "in":
+            rep.violation("oracle", "a combinator inside the proved fragment reports Always but a matched path has an unmatched descendant", inp, impl="always", fragment=f)
+        elif v != "always" or mpat != pat:
+            rep.violation("oracle", "false Always of a combinator that the model of the committed fold does not reproduce", inp, impl="always", model=v, fragment=f)
+        else:
+            tags = f[4:].split(",")
+            known = [t for t in tags if t in finding_ids]
+            if not known:
+                rep.violation("oracle", "false Always of a combinator at a site no listed finding names: %s" % ",".join(tags), inp, impl="always", fragment=f)
+            else:
+                for t in known:
+                    rep.known_hits[t] += 1
+
     def ask(wit):
         b = lib.parse_impl_build(h.ask(["B " + hexs(wit["expr"])])[0])
         a = h.ask(["M %s %s" % (hexs(wit["expr"]), hexs(wit["path"]))])[0].startswith("match")
